@@ -11,6 +11,7 @@
   the transports themselves, and that the C code equals the model (that is the correspondence check).
 -/
 import PdshVerif.Exec.Lemmas
+import PdshVerif.Exec.EndToEnd
 import PdshVerif.Opt.RcmdLemmas
 
 namespace PdshVerif.C09
@@ -380,6 +381,59 @@ theorem rank_is_position (cfg : Cfg) (words : List Word) (targets : List Str) (l
         simpa using h2
       · simp at hrun
 
+/-! with the proposed repair of F09-2BR (findings/C09.patch, `reExpand`) the restriction to words
+    with one bracket pair disappears -/
+
+theorem firstNaming_reExpand (words : List Word) (h : Str) :
+    firstNaming (words.map reExpand) h = firstNaming words h := by
+  unfold firstNaming
+  induction words with
+  | nil => rfl
+  | cons w ws ih =>
+    have ha : annotated (reExpand w) = annotated w := rfl
+    have hf : (reExpand w).full = w.full := rfl
+    have ht : (reExpand w).text = w.text := rfl
+    by_cases hc : (annotated w && w.full.contains h) = true
+    · simp only [List.map_cons, List.find?_cons, ha, hf, hc, ht]
+    · have hc' : (annotated w && w.full.contains h) = false := by simpa using hc
+      simp only [List.map_cons, List.find?_cons, ha, hf, hc']
+      exact ih
+
+/-- first registration wins, for EVERY word (two-bracket words included), once the registered names
+    are expanded like the target list -/
+theorem first_word_wins_reexpand (cfg : Cfg) (words : List Word) (reg : List Entry) (h : Str)
+    (hrun : processWords cfg (words.map reExpand) [] = some reg) :
+    (lookup reg h).map (fun e => (e.rtype, e.user)) =
+      (firstNaming words h).map (fun p => (p.rtype, p.user)) := by
+  rw [← firstNaming_reExpand]
+  apply first_word_wins cfg _ reg h hrun
+  intro w hw
+  simp only [List.mem_map] at hw
+  obtain ⟨w0, _, rfl⟩ := hw
+  rfl
+
+/-- ... and every connection of a run is the one the specification demands, without restriction -/
+theorem run_eq_spec_reexpand (cfg : Cfg) (words : List Word) (targets : List Str) (ls : List Line)
+    (hrun : runRe cfg words targets = .lines ls) :
+    ls = expectedLines cfg words targets := by
+  have h1 := run_eq_spec cfg (words.map reExpand) targets ls hrun (by
+    intro w hw
+    simp only [List.mem_map] at hw
+    obtain ⟨w0, _, rfl⟩ := hw
+    rfl)
+  rw [h1]
+  unfold expectedLines hostInfo
+  simp only [firstNaming_reExpand]
+
+/-- the witness below is gone: the two-bracket word is honoured -/
+theorem f09_2br_repaired :
+    let w : Word := ⟨"u@foo[1-2]-[0-1]".toList,
+                     ["foo1-[0-1]".toList, "foo2-[0-1]".toList],
+                     ["foo1-0".toList, "foo1-1".toList, "foo2-0".toList, "foo2-1".toList]⟩
+    let cfg : Cfg := ⟨["exec".toList], ["exec".toList], none, none, none, "me".toList⟩
+    runRe cfg [w] w.full = .lines (expectedLines cfg [w] w.full) := by
+  decide
+
 /-- F09-2BR witness: a two-bracket word is registered under its first-level names, so the final
     hosts are not found and fall back to the defaults although the word names them
     (`-w u@foo[1-2]-[0-1]`: foo1-0 is contacted as the local user) -/
@@ -391,6 +445,103 @@ theorem f09_2br_witness :
     run cfg [w] w.full ≠ .lines (expectedLines cfg [w] w.full)
     ∧ (expectedLines cfg [w] w.full).map (·.user) = List.replicate 4 "u".toList := by
   decide
+
+/-! ## end to end: from the command line to what the transport does -/
+
+/-- what xrcmd writes before its first read, write by write, is the request of the specification -/
+theorem xrcmd_writes_request (port : Option Nat) (luser ruser cmd : List Char) :
+    (xrcmdWrites port luser ruser cmd).flatten = rshRequest port luser ruser cmd := by
+  cases port <;> simp [xrcmdWrites, rshRequest, portField]
+
+/-- ... so the peer reads exactly (stderr port, local user, remote user, command), and nothing else
+    parses out of those bytes -/
+theorem wire_request_exact (port : Option Nat) (luser ruser cmd : List Char)
+    (hl : nul ∉ luser) (hr : nul ∉ ruser) (hc : nul ∉ cmd) :
+    parseRequest (xrcmdWrites port luser ruser cmd).flatten = some (portField port, luser, ruser, cmd) ∧
+    ∀ t, parseRequest (xrcmdWrites port luser ruser cmd).flatten = some t →
+      t = (portField port, luser, ruser, cmd) := by
+  have h := rshRequest_roundtrip port luser ruser cmd hl hr hc
+  rw [xrcmd_writes_request]
+  refine ⟨h, ?_⟩
+  intro t ht
+  rw [h] at ht
+  exact (Option.some.inj ht).symm
+
+theorem joinCmd_nul_free (argv : List Str) (h : ∀ a ∈ argv, nul ∉ a) : nul ∉ joinCmd argv := by
+  induction argv with
+  | nil => simp [joinCmd]
+  | cons a rest ih =>
+    cases rest with
+    | nil => simpa [joinCmd] using h a (by simp)
+    | cons b r =>
+      simp only [joinCmd, List.mem_append, List.mem_cons, not_or]
+      refine ⟨h a (by simp), by decide, ?_⟩
+      exact ih (fun x hx => h x (by simp [hx]))
+
+/-- -R exec: the helper is started as the first command word, its argv is the basename of that word
+    followed by every further command word with exactly %h %u %n %% replaced -- the words as they
+    stand on pdsh's command line, never re-split -/
+theorem exec_argv_exact (e : Env) (w0 : List Char) (rest : List (List Char)) (cmd tail : List Char)
+    (hn : ∀ a ∈ rest, nul ∉ a) :
+    execCall repaired e (w0 :: rest) cmd tail = some ⟨w0, xbasename w0 :: rest.map (expected e)⟩ := by
+  obtain ⟨l, hl, hv, _⟩ := argv_length_preserved e (xbasename w0) rest tail hn
+  simp [execCall, execWords, hl, hv, expectedArgv]
+
+/-- interactive mode (no command words): `sh -c <command line>`, the escapes replaced inside the line -/
+theorem exec_argv_interactive (e : Env) (cmd tail : List Char) (hc : nul ∉ cmd) :
+    execCall repaired e [] cmd tail =
+      some ⟨"sh".toList, ["sh".toList, "-c".toList, expected e cmd]⟩ := by
+  have hn : ∀ a ∈ ["-c".toList, cmd], nul ∉ a := by
+    intro a ha
+    simp only [List.mem_cons, List.mem_nil_iff, or_false] at ha
+    rcases ha with ha | ha
+    · subst ha; decide
+    · subst ha; exact hc
+  obtain ⟨l, hl, hv, _⟩ := argv_length_preserved e (xbasename "sh".toList) ["-c".toList, cmd] tail hn
+  have hb : xbasename "sh".toList = "sh".toList := by decide
+  have hd : expected e "-c".toList = "-c".toList := no_percent_id e _ (by decide)
+  rw [hb] at hl hv
+  simp only [execCall, execWords, hb, hl, Option.map_some, hv, expectedArgv, List.map_cons, List.map_nil, hd]
+
+theorem expectedLines_get (cfg : Cfg) (words : List Word) (targets : List Str) (i : Nat)
+    (hi : i < targets.length) :
+    ∃ hi' : i < (expectedLines cfg words targets).length,
+      (expectedLines cfg words targets)[i] =
+        ⟨(hostInfo cfg words targets[i]).1, targets[i], (hostInfo cfg words targets[i]).2, i⟩ := by
+  refine ⟨by simp [expectedLines, hi], ?_⟩
+  simp [expectedLines]
+
+/-- the whole chain for exec: in a run that takes place (`ls` = its connections, equal to the
+    specified ones by `run_eq_spec` / `run_eq_spec_reexpand`), the helper for the i-th target gets
+    the command words with host = that target, user = what the first annotated word naming it (or
+    -l, or the local user) says, rank = i -/
+theorem exec_end_to_end (cfg : Cfg) (words : List Word) (targets : List Str) (ls : List Line)
+    (hls : ls = expectedLines cfg words targets) (i : Nat) (hi : i < targets.length)
+    (w0 : List Char) (rest : List (List Char)) (cmd tail : List Char) (hn : ∀ a ∈ rest, nul ∉ a) :
+    ∃ hi' : i < ls.length,
+      execCall repaired ⟨ls[i].host, ls[i].user, ls[i].rank⟩ (w0 :: rest) cmd tail =
+        some ⟨w0, xbasename w0 ::
+          rest.map (expected ⟨targets[i], (hostInfo cfg words targets[i]).2, i⟩)⟩ := by
+  subst hls
+  obtain ⟨hi', hg⟩ := expectedLines_get cfg words targets i hi
+  refine ⟨hi', ?_⟩
+  rw [hg]
+  exact exec_argv_exact _ w0 rest cmd tail hn
+
+/-- the whole chain for rsh: the request for the i-th target is (stderr port, local user, the
+    specified remote user, the command words joined by single blanks) -/
+theorem rsh_end_to_end (cfg : Cfg) (words : List Word) (targets : List Str) (ls : List Line)
+    (hls : ls = expectedLines cfg words targets) (i : Nat) (hi : i < targets.length)
+    (port : Option Nat) (argv : List Str) (hargv : ∀ a ∈ argv, nul ∉ a) (hlu : nul ∉ cfg.luser)
+    (hru : nul ∉ (hostInfo cfg words targets[i]).2) :
+    ∃ hi' : i < ls.length,
+      parseRequest (xrcmdWrites port cfg.luser ls[i].user (joinCmd argv)).flatten =
+        some (portField port, cfg.luser, (hostInfo cfg words targets[i]).2, joinCmd argv) := by
+  subst hls
+  obtain ⟨hi', hg⟩ := expectedLines_get cfg words targets i hi
+  refine ⟨hi', ?_⟩
+  rw [hg]
+  exact (wire_request_exact port cfg.luser _ (joinCmd argv) hlu hru (joinCmd_nul_free argv hargv)).1
 
 /-- the hypotheses of the theorems above are satisfiable by a non-trivial run: two overlapping
     annotated words, -l, and a default from the rank list -/
